@@ -170,6 +170,10 @@ for t in ("SYSCALL","EXECVE","PATH","AVC"):
     c05.append(job(f"warm-body-{t}","auparse","VH_BodyTotal",["C05/"],{"maxlen":3,"type":TYPES.index(t),"warm":1},Q,bounds=f"Parse({t}, header + body), body 0..3 symbolic ASCII bytes, after seven ordinary records were parsed and read (parser state not fresh); those are read again at the end"))
 for k in ("a0","saddr","key","name"):
     c05.append(job(f"warm-field-{k}","auparse","VH_FieldTotal",["C05/"],{"key":KEYS.index(k) if 'KEYS' in dir() else 0,"maxlen":2,"type":{"saddr":2,"a0":7,"name":8}.get(k,0),"with":{"a0":2}.get(k,0),"warm":1},Q,bounds=f"{k}=<v>, v of 0..2 symbolic ASCII bytes in three quotings, after the warm-up"))
+for k,stems in (("subj",(1,2)),("obj",(1,2)),("key",(3,5)),("name",(4,)),("cwd",(4,)),("a0",(3,)),("exe",(4,))):
+    for st in stems:
+        c05.append(job(f"stem{st}-field-{k}","auparse","VH_FieldTotal",["C05/"],{"key":KEYS.index(k),"maxlen":3,"type":{"obj":8,"name":8,"a0":7}.get(k,0),"with":{"a0":2}.get(k,0),"stem":st},Q,
+           bounds=f"{k}=<stem + v>: a structured concrete beginning (#{st}: SELinux context with an MLS range / many colons / hex key list / deep path / comma list) followed by 0..3 symbolic ASCII bytes, three quotings"))
 c05.append(job("bare-header","auparse","VH_BodyTotal",["C05/"],{"maxlen":4,"type":0,"bare":1},Q,bounds="Parse(SYSCALL, \"audit(1.000:1)\" + tail) for every ASCII tail of 0..4 symbolic bytes (no separator after the header)"))
 c05.append(job("body-anytype","auparse","VH_BodyTotal",["C05/"],{"maxlen":4,"type":-1},T,bounds="record type symbolic (16 bit), body 0..4 symbolic ASCII bytes"))
 KEYS_=["saddr","argc","a0","a1","exit","arch","syscall","sig","subj","obj","key","success","res","auid","old-auid","ses","cwd","exe","proctitle","cmd","data","name","acct","msg"]
